@@ -149,6 +149,14 @@ pub fn plan(p: u32, tier: &str) -> Vec<Run> {
         x.follow = true;
         x
     };
+    // every full 4-slot graph on its own: build, one changed input or deleted output with every fault, resume
+    let alone4 = || {
+        let mut f4 = s("S4-alone-D2-k1-ff+follow", 2, m);
+        f4.edit_bound = Some(1);
+        f4.faults = vec![false, true];
+        f4.follow = true;
+        f4
+    };
     let eph_shapes = ["late-requirement", "E-E-O+A", "E-E-E-O+A", "E-E-O+A-mid", "E-O-E-O"];
     match p {
         1 => {
@@ -156,6 +164,7 @@ pub fn plan(p: u32, tier: &str) -> Vec<Run> {
             add(s4(false), families::slots(4));
             add(s4d2ff(), families::slots(4));
             add(late3f(), families::late3x_oe());
+            add(alone4(), families::slots_each_alone(4));
             add(late("latepair", true), families::late_pair());
             add(late("bigshapes", true), families::big_shapes());
             add(late("ephtrees", true), families::eph_trees());
@@ -270,6 +279,7 @@ pub fn plan(p: u32, tier: &str) -> Vec<Run> {
             add(s4(false), families::slots(4));
             add(s4d2ff(), families::slots(4));
             add(late3f(), families::late3x_oe());
+            add(alone4(), families::slots_each_alone(4));
             add(late("late2x", true), families::late_gadget(2, true));
             add(late("latepair", true), families::late_pair());
             add(late("bigshapes", true), families::big_shapes());
@@ -544,6 +554,13 @@ pub fn plan(p: u32, tier: &str) -> Vec<Run> {
             l2n.faults = vec![false, true];
             add(l2n, families::late_gadget(2, true));
             if p == 9 {
+                // 4 slots with history: build, one edit with every fault, resume (an Ephemeral with an Always
+                // consumer is required at once on the resume, before its other consumers are looked at)
+                let mut f4 = s("S4-alone-D2-k1-ff+follow", 2, m);
+                f4.edit_bound = Some(1);
+                f4.faults = vec![false, true];
+                f4.follow = true;
+                add(f4, families::slots_each_alone(4));
                 // with the graphs that lack one free slot: the interrupted evaluation may add a consumer
                 let mut l2 = late("late2x+removals+follow", true);
                 l2.follow = true;
@@ -624,6 +641,7 @@ pub fn plan(p: u32, tier: &str) -> Vec<Run> {
             add(s4(false), families::slots(4));
             add(s4d2ff(), families::slots(4));
             add(late3f(), families::late3x_oe());
+            add(alone4(), families::slots_each_alone(4));
             add(late("late2x+removals", true), families::with_slot_removals(families::late_gadget_full(2, true, true, None, false)));
             add(deep3("S3D4-ff", 4, vec![false; 4]), families::slots(3));
             add(deep3("S3D3-f010", 3, vec![false, true, false]), families::slots(3));
@@ -656,6 +674,7 @@ pub fn plan(p: u32, tier: &str) -> Vec<Run> {
             add(s3(true), families::slots(3));
             add(s4(true), families::slots(4));
             add(late3f(), families::late3x_oe());
+            add(alone4(), families::slots_each_alone(4));
             add(noise("S3D2-noise+follow", 2, true, false), families::slots(3));
             let mut mono = noise("S3D2-mono+follow", 2, true, false);
             mono.cmp = Cmp::Mono;
@@ -1264,6 +1283,7 @@ pub fn cmd_run(args: &[String]) -> i32 {
         "s3" => families::slots(3),
         "s4" => families::slots(4),
         "s4full" => families::slots_full_only(4),
+        "s4alone" => families::slots_each_alone(4),
         "s5full" => families::slots_full_only(5),
         "ignore3" => families::slots_ignore(3),
         "unread3" => families::slots_unread_edge(3),
